@@ -884,6 +884,11 @@ pub fn base(rng: &mut Xo, prop: &str, seed: u64, index: u64, o: &GenOpts) -> Sce
         );
     }
     params.insert("ext".into(), ext);
+    // a quarter of the scenarios hand the planner freshly built problem-definition / goal objects
+    // on every call; the others keep and re-use them (object identity is observable: Arc::ptr_eq)
+    if rng.chance(0.25) {
+        params.insert("fresh_objects".into(), 1.0);
+    }
     params.insert("sealed".into(), if wb.sealed { 1.0 } else { 0.0 });
     params.insert("start_invalid".into(), if wb.start_invalid { 1.0 } else { 0.0 });
     let mut sampler = o.goal_sampler.unwrap_or_else(|| *rng.pick(&[GoalSampler::Fixed, GoalSampler::Harness, GoalSampler::Harness]));
